@@ -655,6 +655,8 @@ func (e *Eng) evalBinary(x *ast.BinaryExpr, c *ctx) Val {
 				}
 			}
 			c.st.allocs = sub.allocs
+			c.st.known = sub.known
+			c.st.frontier = sub.frontier
 		} else if len(sub.heap) != len(c.st.heap) || heapChanged(sub, c.st) || ghostChanged(sub, c.st) {
 			other := c.st.clone()
 			other.assume(smtNot(guard))
@@ -673,6 +675,8 @@ func (e *Eng) evalBinary(x *ast.BinaryExpr, c *ctx) Val {
 				}
 			}
 			c.st.allocs = sub.allocs
+			c.st.known = sub.known
+			c.st.frontier = sub.frontier
 		}
 		if x.Op == token.LAND {
 			return Val{K: KBool, T: smtAnd(a.T, b.T), GoT: types.Typ[types.Bool]}
@@ -1286,7 +1290,13 @@ func (e *Eng) evalCompositeLit(x *ast.CompositeLit, c *ctx) Val {
 	}
 	switch u := t.Underlying().(type) {
 	case *types.Struct:
-		v := e.zeroVal(t, c.st)
+		// Go evaluates the element expressions (and the calls in them) before the value is
+		// built: a call among them cannot disturb fields listed earlier
+		type fieldVal struct {
+			f *types.Var
+			v Val
+		}
+		var fvs []fieldVal
 		for i, el := range x.Elts {
 			var f *types.Var
 			var val ast.Expr
@@ -1305,8 +1315,11 @@ func (e *Eng) evalCompositeLit(x *ast.CompositeLit, c *ctx) Val {
 			if f == nil {
 				continue
 			}
-			fv := e.copyVal(c.st, e.coerce(e.evalElt(val, f.Type(), c), f.Type(), c))
-			e.storeLoc(c.st, e.fieldBase(f, ownerName(t)), []string{v.T}, fv)
+			fvs = append(fvs, fieldVal{f, e.copyVal(c.st, e.coerce(e.evalElt(val, f.Type(), c), f.Type(), c))})
+		}
+		v := e.zeroVal(t, c.st)
+		for _, fv := range fvs {
+			e.storeLoc(c.st, e.fieldBase(fv.f, ownerName(t)), []string{v.T}, fv.v)
 		}
 		return v
 	case *types.Slice, *types.Array:
